@@ -18,7 +18,17 @@ os.makedirs(dst, exist_ok=True)
 for f in glob.glob(src + "/*"):
     shutil.copy(f, dst)
 meta = json.load(open(dst + "/meta.json")) if os.path.exists(dst + "/meta.json") else {}
-demo_cmd = open(dst + "/demo_cmd.txt").read().strip().splitlines()[-1].strip() if os.path.exists(dst + "/demo_cmd.txt") else ""
+demo_cmd = ""
+if os.path.exists(dst + "/demo_cmd.txt"):
+    import re
+    for line in open(dst + "/demo_cmd.txt").read().splitlines():
+        if "go test" in line or "go run" in line:
+            demo_cmd = line.strip().strip("`")
+            break
+    # run it in the scratch worktree, not in the agent's directory
+    demo_cmd = re.sub(r"cd /tmp/seed/C\d+\s*&&\s*", "", demo_cmd)
+    demo_cmd = re.sub(r"export [^&]*&&\s*", "", demo_cmd)
+    demo_cmd = re.sub(r"unset GOWORK\s*(&&|;)\s*", "", demo_cmd)
 wt = "/tmp/evalseed_" + name
 sh("git -C /repo worktree remove --force %s" % wt)
 r = sh("git -C /repo worktree add --detach %s HEAD" % wt)
